@@ -141,11 +141,15 @@ def body_cov(case, ctx):
         else:
             ds = O.derivs(rf.F, xm, 2)
             rec["f1"], rec["f2"] = ds
-            if inverted and base["cls"] in O.PM1 and abs(float(fv)) == 1.0:
-                # in double precision the node sits on an end of [-1,1]; singular if the inner r'(y) is 0/infinite there
-                yv = O.M(float(fv))
-                g1 = O.derivs(rf.G, yv, 1)[0]
-                rec["singular"] = O.value(rf.G, yv) is None or g1 is None or g1 == 0
+            if inverted and base["cls"] in O.PM1:
+                # y = inner.inverse(r) is known to CS*eps*(|r|+P)*|dy/dr| only; if that reaches an end of [-1,1] the node
+                # cannot be told from the end in double precision: singular if the inner r'(y) is 0/infinite at that end
+                yf = float(fv)
+                reach = CS * EPS * float(rec["dx"]) * abs(float(ds[0])) if ds[0] is not None else 0.0
+                if min(1.0 + yf, 1.0 - yf) <= reach:
+                    yv = O.M(1.0 if yf > 0 else -1.0)
+                    g1 = O.derivs(rf.G, yv, 1)[0]
+                    rec["singular"] = O.value(rf.G, yv) is None or g1 is None or g1 == 0
             big = [v for v in (fv, ds[0], ds[1]) if v is not None and abs(v) > mp.mpf(10) ** 300]
             if big:
                 ctx.skip("image or Jacobian beyond the double-precision range")
@@ -266,8 +270,15 @@ def body_cov(case, ctx):
         return
     g0, g1 = float(dom[0]), float(dom[1])
 
+    # a finite end that is the image of an interior point of the map carries the same conditioning as a node
+    end_sens = {}
+    for d, v in zip((d0, d1), im):
+        if np.isfinite(d) and mp.isfinite(v) and O.M(d) not in rf.ends:
+            f1 = O.derivs(rf.F, O.M(d), 1)[0]
+            end_sens[float(v)] = CS * EPS * float(abs(O.M(d)) + rf.px) * abs(float(f1)) if f1 is not None else 0.0
+
     def end_ok(got, ref):
-        return (got == ref) if np.isinf(ref) else (abs(got - ref) <= RT * max(1.0, abs(ref)))
+        return (got == ref) if np.isinf(ref) else (abs(got - ref) <= RT * max(1.0, abs(ref)) + end_sens.get(ref, 0.0))
 
     if not (end_ok(g0, want[0]) and end_ok(g1, want[1])):
         msg = f"{head}: new domain {(g0, g1)!r}, ordered image of {grid.domain} is {tuple(want)!r}"
